@@ -1,4 +1,111 @@
 import Model
+import Proofs.Slots
+import Proofs.Scan
+/-!
+C17 — slot/time conversion and interval scanning obey their algebra.
+All theorems are for every resolution `G > 0`, every window and every index / instant / pattern.
+-/
 namespace SP.C17
-theorem placeholder : (1 : Nat) = 1 := rfl
+open SP
+
+/-- slot index → time is strictly increasing -/
+theorem time_strictMono (b : Board) (hG : 0 < b.G) (i j : Int) (h : i < j) : b.time i < b.time j :=
+  b.time_lt hG h
+
+/-- index (time i) = i, for every index (not only those of the table) -/
+theorem idx_time (b : Board) (hG : 0 < b.G) (i : Int) : b.rawIdx (b.time i) = i := b.rawIdx_time hG i
+
+/-- floor-inverse on instants at or after `start`: time (index t) ≤ t < time (index t + 1) -/
+theorem time_idx_floor (b : Board) (hG : 0 < b.G) (t : Int) (ht : b.start ≤ t) :
+    b.time (b.rawIdx t) ≤ t ∧ t < b.time (b.rawIdx t + 1) := b.rawIdx_floor hG ht
+
+/-- what happens *before* the window (truncation toward zero), stated explicitly -/
+theorem idx_before_start (b : Board) (hG : 0 < b.G) (t : Int) (ht : t < b.start) :
+    b.rawIdx t ≤ 0 ∧ (b.start - b.G < t → b.rawIdx t = 0) ∧ t ≤ b.time (b.rawIdx t) :=
+  b.rawIdx_before hG ht
+
+/-- the table covers [start, end]: slot 0 starts at `start`, the last slot starts at or after `end`,
+    and the table is not longer than needed -/
+theorem table_covers (b : Board) (hG : 0 < b.G) :
+    b.time 0 = b.start ∧ b.stop ≤ b.time (b.size - 1) ∧ b.time (b.size - 2) < b.stop := by
+  refine ⟨by simp [Board.time], ?_, ?_⟩
+  · have := ceilDiv_mul_ge (b.stop - b.start) b.G hG
+    simp only [Board.time, Board.size]
+    have e : ceilDiv (b.stop - b.start) b.G + 1 - 1 = ceilDiv (b.stop - b.start) b.G := by omega
+    rw [e]; omega
+  · have := ceilDiv_mul_lt (b.stop - b.start) b.G hG
+    simp only [Board.time, Board.size]
+    have e : ceilDiv (b.stop - b.start) b.G + 1 - 2 = ceilDiv (b.stop - b.start) b.G - 1 := by omega
+    rw [e]; omega
+
+/-- `idxToDate`: inside the table the slot time; outside, rejected — unless clamping, then the nearest bound -/
+theorem idxToDate_spec (b : Board) (i : Int) :
+    (0 ≤ i ∧ i < b.size → ∀ f, pyIdxToDate b i f = .ok (b.time i)) ∧
+    (i < 0 ∨ b.size ≤ i → pyIdxToDate b i false = .indexError) ∧
+    (i < 0 → pyIdxToDate b i true = .ok b.start) ∧
+    (b.size ≤ i → 0 ≤ i → pyIdxToDate b i true = .ok b.stop) := by
+  refine ⟨?_, ?_, ?_, ?_⟩
+  · rintro ⟨h0, h1⟩ f
+    cases f <;> grind [pyIdxToDate]
+  · intro h; grind [pyIdxToDate]
+  · intro h; grind [pyIdxToDate]
+  · intro h h0; grind [pyIdxToDate]
+
+/-- `dateToIdx` never rejects an instant of the window and returns its floor slot -/
+theorem dateToIdx_window (b : Board) (hG : 0 < b.G) (t : Int) (h0 : b.start ≤ t) (h1 : t ≤ b.stop) (f : Bool) :
+    pyDateToIdx b t f = .ok (b.rawIdx t) ∧ 0 ≤ b.rawIdx t ∧ b.rawIdx t < b.size := by
+  have a := b.rawIdx_nonneg hG h0
+  have c := b.rawIdx_lt_size hG h0 h1
+  refine ⟨?_, a, c⟩
+  cases f <;> grind [pyDateToIdx]
+
+/-- round trip through the checked API for every index of the table -/
+theorem dateToIdx_idxToDate (b : Board) (hG : 0 < b.G) (i : Int) (h0 : 0 ≤ i) (h1 : i < b.size) (f : Bool) :
+    pyDateToIdx b (b.time i) f = .ok i := by
+  have := b.rawIdx_time hG i
+  cases f <;> grind [pyDateToIdx]
+
+/-- out-of-table instants: rejected, or clamped to the nearest slot -/
+theorem dateToIdx_outside (b : Board) (t : Int) :
+    (b.rawIdx t < 0 ∨ b.size ≤ b.rawIdx t → pyDateToIdx b t false = .indexError) ∧
+    (b.rawIdx t < 0 → pyDateToIdx b t true = .ok 0) ∧
+    (b.size ≤ b.rawIdx t → 0 ≤ b.rawIdx t → pyDateToIdx b t true = .ok (b.size - 1)) := by
+  refine ⟨?_, ?_, ?_⟩
+  · intro h; grind [pyDateToIdx]
+  · intro h; grind [pyDateToIdx]
+  · intro h h0; grind [pyDateToIdx]
+
+/-- the effective predicate of a scan: the table value, and only strictly below the scan end -/
+def effPred (pat : List Bool) (hi : Int) (i : Int) : Bool := patAt pat i && decide (i < hi)
+
+/-- **Scan specification.**  `collectIntervals` returns exactly the maximal runs of the predicate
+    (inside the scan range = window widened by `m`, clipped to the table) whose length is at least `m`,
+    each clipped to the query window `[sIdx, eIdx]`. -/
+theorem scan_exactly_maximal_runs (pat : List Bool) (sIdx eIdx : Int) (m : Nat) (x : Int × Int)
+    (hlo : scanLo sIdx m ≤ scanHi eIdx pat.length m + 1) :
+    x ∈ pyScan pat sIdx eIdx m ↔
+      ∃ a b, ClosedRun (effPred pat (scanHi eIdx pat.length m)) (scanLo sIdx m) (scanHi eIdx pat.length m + 1) a b
+             ∧ (m : Int) ≤ b - a ∧ x = (max a sIdx, min b eIdx) := by
+  have hstep : ∀ (st : ScanSt) (i : Int),
+      scanStep pat sIdx eIdx (scanHi eIdx pat.length m) m st i =
+      qStep (effPred pat (scanHi eIdx pat.length m)) sIdx eIdx m st i := by
+    intro st i; simp [scanStep, qStep, effPred]
+  have inv := scanInv_fold (effPred pat (scanHi eIdx pat.length m)) sIdx eIdx m (scanLo sIdx m)
+      (scanHi eIdx pat.length m - scanLo sIdx m + 1).toNat
+  have hk : scanLo sIdx m + ((scanHi eIdx pat.length m - scanLo sIdx m + 1).toNat : Int)
+      = scanHi eIdx pat.length m + 1 := by omega
+  rw [hk] at inv
+  have hfold : pyScan pat sIdx eIdx m =
+      ((scanIdxs (scanLo sIdx m) (scanHi eIdx pat.length m - scanLo sIdx m + 1).toNat).foldl
+        (qStep (effPred pat (scanHi eIdx pat.length m)) sIdx eIdx m) { dur := 0, start := 0, acc := [] }).acc := by
+    unfold pyScan scanIdxs
+    simp only []
+    rw [foldl_congr_step _ _ hstep]
+  rw [hfold]
+  exact inv.acc x
+
+/-- no run is left open when the loop ends: the predicate is false at the scan end by construction -/
+theorem scan_end_closed (pat : List Bool) (hi : Int) : effPred pat hi hi = false := by
+  simp [effPred]
+
 end SP.C17
